@@ -276,6 +276,9 @@ def check_unit(tpl_path, vacuity=True, keep=True):
     res.item_text = {k: sha(v) for k, v in unit.item_text.items()}
     res.strlit_patterns = dict(unit.strlit_patterns)
     res.bare_loops = dict(unit.bare_loops)
+    res.callees = dict(unit.callees)
+    # names that carry a contract written in this unit (extracted functions, wrappers, assumed std contracts of prelude/)
+    res.contracted_names = sorted(set(re.findall(r"\bfn\s+(\w+)", text)) | set(re.findall(r"assume_specification[^\[;]*\[[^\]]*?(\w+)\s*(?:::<[^\]]*>)?\s*\]", text)))
     res.lost_required = dict(unit.lost_required)
     res.lost_optional = dict(unit.lost_optional)
     cmd, js, diags, wall, raw = run_verus(path)
